@@ -1,0 +1,45 @@
+//go:build verif
+// +build verif
+
+package core
+
+import (
+	"strconv"
+
+	"com.tuntun.rangers/node/src/common"
+	"com.tuntun.rangers/node/src/middleware/log"
+	"com.tuntun.rangers/node/src/middleware/types"
+	"com.tuntun.rangers/node/src/storage/account"
+)
+
+// Verification hooks for the replica-determinism check (build tag verif only, add-only).
+
+// VerifC01InitLoggers sets the package loggers InitCore would set; InitCore itself opens the block
+// chain, the group chain and the network layer.
+func VerifC01InitLoggers() {
+	idx := strconv.Itoa(common.InstanceIndex)
+	if logger == nil {
+		logger = log.GetLoggerByIndex(log.CoreLogConfig, idx)
+	}
+	if txLogger == nil {
+		txLogger = log.GetLoggerByIndex(log.TxLogConfig, idx)
+	}
+	if rewardLog == nil {
+		rewardLog = log.GetLoggerByIndex(log.RewardLogConfig, idx)
+	}
+}
+
+// VerifC01ExecuteBlock is newVMExecutor(accountdb, block, situation).Execute(): the per-block loop,
+// after() unless situation is "testing", IntermediateRoot.
+func VerifC01ExecuteBlock(accountdb *account.AccountDB, block *types.Block, situation string) (common.Hash, []common.Hash, []*types.Transaction, []*types.Receipt) {
+	return newVMExecutor(accountdb, block, situation).Execute()
+}
+
+// VerifC01ReceiptsTree is calcReceiptsTree.
+func VerifC01ReceiptsTree(receipts types.Receipts) common.Hash { return calcReceiptsTree(receipts) }
+
+// VerifC01GenerateCode is VMExecutor.generateCode (call data of the sub-chain reward contract call).
+func VerifC01GenerateCode(proposals, validators map[string]common.Address, members [][]byte, header *types.BlockHeader) string {
+	code, _ := (&VMExecutor{}).generateCode(proposals, validators, members, header)
+	return code
+}
